@@ -271,6 +271,7 @@ def lemma_is_num_backup(ctx):
             else:
                 ctx.lemma(eng, "C09: every sibling named <base>.~N~ (decimal N within u64) is recognised", p.pc, z3.Not(spec))
     (ctx.passed if some_n else ctx.fail)("witness: some name is recognised", "")
+    validate_backup_vectors(ctx)
     ctx.bounds = ("base names of 1..%d and sibling names of 0..%d characters (bounded symbolic strings: one integer per character), any characters but '/' and NUL; "
                   "\\d modelled as ASCII digits plus one non-ASCII digit block" % (nb, nc))
 
@@ -460,3 +461,42 @@ def lemma_backup_path(ctx):
                   r.attrs["name"].attrs["t"] == z3.Concat(b, z3.StringVal(".~"), z3.IntToStr(nb[0].ret.t), z3.StringVal("~")))
     (ctx.passed if okn else ctx.fail)("witness: get_backup_path success path", "")
     ctx.bounds = "any file name of 1..8 characters, any u64 backup number"
+
+
+def validate_backup_vectors(ctx):
+    """translator validation with the repository's own unit-test cases (test_is_backup, test_backup_num_scan):
+    concrete names through the MIR interpreter, compared with what the tests assert of the real functions"""
+    n = 0
+    cases = [("file.txt", "file.txt.~123~", 123), ("other_file.txt", "file.txt.~123~", None), ("le.txt", "file.txt.~123~", None)]
+    for base, cand, want in cases:
+        eng = ctx.engine("libxcp", loop_bound=2)
+        install_backup_env(ctx, eng)
+        fn = fn_named(eng.funcs, "is_num_backup")
+        c = OpaqueV("Path", "candidate", {"name": SStrV(View.const(cand), None)})
+        paths = [p for p in eng.run(fn.name, [RefV(Cell(SStrV(View.const(base)))), RefV(Cell(c))], State()) if p.status == "return"]
+        got = [None if p.ret.vname == "None" else z3.simplify(p.ret.fields[0].t) for p in paths]
+        got = [g if g is None else (g.as_long() if z3.is_int_value(g) else "?") for g in got]
+        if len(paths) == 1 and (got[0] == want or (want is not None and got[0] == "?")):
+            if got[0] == "?":
+                ok_, _ = eng.valid(paths[0].pc, paths[0].ret.fields[0].t == want)
+                if not ok_:
+                    ctx.fail("translator validation: is_num_backup test vectors", "%s/%s -> %r" % (base, cand, got))
+                    continue
+            n += 1
+        else:
+            ctx.fail("translator validation: the MIR interpreter reproduces the repository's is_num_backup test vectors", "%s/%s: got %r, test expects %r" % (base, cand, got, want))
+    for listing, want in ((["file.txt"], 1), (["file.txt", "file.txt.~123~"], 124), (["file.txt", "file.txt.~123~", "file.txt.~999~"], 1000)):
+        eng = ctx.engine("libxcp", loop_bound=3)
+        install_backup_env(ctx, eng)
+        ents = [OpaqueV("DirEntry", "entry%d" % i, {"name": SStrV(View.const(nm), None), "t": View.const(nm)}) for i, nm in enumerate(listing)]
+        _install_readdir(ctx, eng, ents)
+        fn = fn_named(eng.funcs, "next_backup_num")
+        f = OpaqueV("Path", "file", {"name": SStrV(View.const("file.txt"))})
+        paths = [p for p in eng.run(fn.name, [RefV(Cell(f))], State()) if p.status == "return" and is_ok(p.ret)]
+        good = len(paths) == 1 and eng.valid(paths[0].pc, paths[0].ret.fields[0].t == want)[0]
+        if good:
+            n += 1
+        else:
+            ctx.fail("translator validation: the MIR interpreter reproduces the repository's next_backup_num test vectors", "%r: expected %d" % (listing, want))
+    (ctx.passed if n == 6 else ctx.fail)("translator validation: the repository's backup unit-test vectors are reproduced by the MIR interpreter", "%d/6" % n)
+    ctx.validated = getattr(ctx, "validated", 0) + n
